@@ -727,7 +727,7 @@ def run_fermion(ctx, configs, futures):
 # Sites
 # ------------------------------------------------------------------------------------------------
 SITES_INV = ['HcComplete', 'ChargeRule', 'PermRule', 'JWFlags', 'SpinAlgebra', 'FermionAlgebra', 'SpinfulAlgebra',
-             'BosonAlgebra', 'ClockAlgebra', 'GroupChargeRule', 'GroupAnticommute', 'GroupJWParity']
+             'BosonAlgebra', 'ClockAlgebra', 'GroupChargeRule', 'GroupAnticommute', 'GroupJWParity', 'EditRule']
 UNITS4 = [1, 1j, -1, -1j]
 import os
 CORRUPT = bool(os.environ.get('VERIF_C12_CORRUPT'))      # self-test: corrupt one predicted value per spec, expect VIOLATION
@@ -877,8 +877,10 @@ def check_table(ctx, site, T, key, stage, order, chg, qnames, qmod, extra=None):
     ctx.case((stage, key, 'hc'), action='Sites.%s.hc_ops' % stage)
     for nm in T['ops']:
         h = site.hc_ops.get(nm)
-        if h is None or (nm, h) not in pairs:
-            bad('hc_ops', dict(op=nm, hc=h), sorted(b for a, b in pairs if a == nm))
+        partners = sorted(b for a, b in pairs if a == nm)      # (only after remove_op an operator can be left without partner)
+        lenient = bool(extra) and extra.get('edit') == 'remove'     # remove_op also drops the partner's declaration
+        if (h is None and partners and not lenient) or (h is not None and (nm, h) not in pairs):
+            bad('hc_ops', dict(op=nm, hc=h), partners)
     if set(site.need_JW_string) != set(T['jw']):
         bad('need_JW_string', sorted(site.need_JW_string), sorted(T['jw']))
     # charge_to_JW_parity: if defined it must reproduce the diagonal of JW; fermionic sites with N/parity must define it
@@ -933,6 +935,35 @@ def make_sites(ctx, tabs, stage):
         site_fail(ctx, stage, 'constructor-or-sanity', dict(cls='members', par=[T['cls'] for T in tabs]),
                   '%s: %s' % (type(e).__name__, e), 'valid sites')
         return None
+
+
+def replay_edit(ctx, T, key):
+    """Site.rename_op / remove_op / add_op on a freshly built site; then the whole table is compared again."""
+    from tenpy.networks.terms import order_combine_term
+    e = T['edit']
+    sig_extra = dict(edit=e['kind'], wasjw=bool(e['wasjw']))
+    try:
+        site = make_site(T)
+        if e['kind'] == 'rename':
+            site.rename_op(e['old'], e['new'])
+        elif e['kind'] == 'remove':
+            site.remove_op(e['old'])
+        else:
+            site.add_op(e['new'], site.get_op(e['old']).copy(), need_JW=bool(e['wasjw']))
+        site.test_sanity()
+    except core.MachineryError:
+        raise
+    except Exception as ex:  # noqa
+        return site_fail(ctx, 'edit', 'exception', T, '%s: %s' % (type(ex).__name__, ex), 'edited site', sig_extra)
+    ok = check_table(ctx, site, T, key, 'edit', T['order'], T['chg'], T['qnames'], T['qmod'], sig_extra)
+    if e['kind'] in ('rename', 'add'):
+        # the (new) name used on two sites: exchanging two fermionic operators costs a sign
+        ctx.case(('edit', key, 'oc'), action='Sites.edit.order_combine_term')
+        _, sign = order_combine_term([(e['new'], 1), (e['new'], 0)], [site, site])
+        if sign != (-1 if e['wasjw'] else 1):
+            ok = site_fail(ctx, 'edit', 'order_combine_term-sign', T, dict(term=[(e['new'], 1), (e['new'], 0)], sign=sign),
+                           -1 if e['wasjw'] else 1, sig_extra)
+    return ok
 
 
 def replay_common(ctx, tabs, grp, key):
@@ -1198,11 +1229,14 @@ def run_sites(ctx, fut):
                 replay_common(ctx, tabs, st['grp'], key)
             else:
                 replay_group(ctx, tabs, st['grp'], key)
+        elif op in ('rename_op', 'remove_op', 'add_op'):
+            T = st['site']
+            replay_edit(ctx, T, (T['cls'], repr(T['par']), repr(T['cons']), op, T['edit']['old']))
         else:
             T = st['site']
             if CORRUPT and T['cls'] == 'SpinSite' and T['par'] == [2] and T['cons'] == 'Sz':
                 T['ops']['Sp'][0][2][0]['rad'] = 3                          # canary: sqrt(2) -> sqrt(3)
-            replay_site(ctx, T, (T['cls'], repr(T['par']), repr(T['cons'])))
+            replay_site(ctx, T, (T['cls'], repr(T['par']), repr(T['cons']), T['sorted']))
             if T['cls'] == 'SpinSite' and T['par'] == [3] and T['cons'] == 'parity':
                 ctx.sample(dict(spec='Sites', cls=T['cls'], par=T['par'], cons=T['cons'], order=T['order'],
                                 Sp=tlaval.to_jsonable(T['ops']['Sp'])))
